@@ -56,7 +56,12 @@ class BuiltinMixin:
         a = fresh("arr", z3.ArraySort(var.sort(), body.sort()))
         v2 = fresh("dv", var.sort())
         b2 = z3.substitute(body, (var, v2))
-        st.assume(z3.ForAll([v2], z3.Select(a, v2) == b2, patterns=[z3.Select(a, v2)]))
+        ax = z3.ForAll([v2], z3.Select(a, v2) == b2, patterns=[z3.Select(a, v2)])
+        if st.spec:
+            # a definition introduced while evaluating a specification: background fact for later obligations
+            self.axioms.append(ax)
+        else:
+            st.assume(ax)
         return a
 
     def log_write(self, key):
@@ -632,6 +637,14 @@ class BuiltinMixin:
         m, frm, to = args
         j = z3.Int("j!rm")
         return Val(Ty("IntMap"), self.def_array(st, j, z3.If(z3.Select(m.t, j) == frm.t, to.t, z3.Select(m.t, j))))
+
+    def x_bi_filter_sel(self, args, kw, st, node):
+        """Ghost: source index of the j-th element of a filter-comprehension result."""
+        lst = args[0]
+        if "sel" not in lst.x:
+            raise Unsupported("filter_sel of a list that is not a filter comprehension result")
+        j = z3.Int("j!fs")
+        return Val(Ty("IntMap"), self.def_array(st, j, lst.x["sel"](j)))
 
     def x_bi_filter_pos(self, args, kw, st, node):
         """Ghost: position in a filter-comprehension result of source index i (valid when the element was kept)."""
